@@ -18,7 +18,19 @@ What runs on every invocation
   A'. DSL 2.0, in this process: every generated namespace is converted with the real namespace_to_flowir from
      the document and from several copies whose mappings are permuted (equal documents): the FlowIR must be
      the same (names, stages, references, command.environment of every component, the environments).
-  B. model correspondence: DslLoad.assignNames / assignEnvs / registered (Lean, drv-c15 op "dsl") predict, from the
+  A''. directory listing order, explicitly: child number 1 sees every directory of the process (os.listdir /
+     os.scandir, hence glob, os.walk, shutil) listed in ascending order, child 2 in descending order, the further
+     children in a fixed shuffled order, child 0 as the file system gives it.  DOSINI packages (a directory of
+     configuration files the loader DISCOVERS by listing: conf/experiment[.<platform>].conf, conf/variables.conf,
+     conf/variables.d/<platform>.conf, conf/stages.d/stage<N>.conf) are generated with a launch history: 0-2 earlier
+     loads with createInstanceFiles=True, user variable files (YAML and DOSINI spelling) and a platform, which leave
+     the instance flavour (stage<N>.instance.conf, experiment.instance.conf, flowir_instance.yaml) next to the package
+     flavour.  Then the package flavour is loaded through the same three entry points, and the instance flavour
+     through configurationForExperiment(is_instance=True).  In this process Dosini.load_from_directory is driven on
+     generated conf/ directories (both flavours, instance flavour with fewer / more stages, stray files) under
+     explicit listing orders: the FlowIR must be the same for every order.
+  B. model correspondence: C15Stages.discover (Lean, drv-c15 op "stages") predicts, from the names of conf/stages.d in
+     the order listed, the file Dosini._discover_stages picks for every stage index. DslLoad.assignNames / assignEnvs / registered (Lean, drv-c15 op "dsl") predict, from the
      step names and environments of the component instances in the order the real ScopeStack visits them, the
      names, command.environment and the registered environments that the real namespace_to_flowir produces.
      Layer.loadVars (Lean, drv-c15) predicts the layered user variables and the value
@@ -259,6 +271,123 @@ MINIMAL_SHADOW = {"id": "minimal-shadow", "kind": "flowir", "files": {}, "variab
                                "command": {"executable": "echo", "arguments": "stage0.sweep:ref"},
                                "workflowAttributes": {"aggregate": True}}]}}
 
+# ----------------------------------------------------------------------------------------
+# generator of DOSINI packages (a directory of configuration files that the loader discovers by listing it)
+# ----------------------------------------------------------------------------------------
+
+DOSINI_COMPS = ["Generate", "Prepare", "Simulate", "Analyse", "Plot", "calc", "A", "BA"]
+
+
+def gen_dosini_package(rng, jid):
+    """A DOSINI package: conf/experiment[.<platform>].conf, conf/variables.conf, conf/variables.d/<platform>.conf,
+    conf/stages.d/stage<N>.conf, all of them found by listing directories.  `history` = earlier loads of the same
+    directory with createInstanceFiles=True (a launch): they leave the instance flavour of every file
+    (stage<N>.instance.conf, experiment.instance.conf) next to the package flavour, with the user variables and the
+    platform of THAT launch baked in.  The loads that are dumped come after."""
+    nstages = rng.choice([1, 1, 2, 2, 3]) if rng.random() > 0.06 else 11
+    platforms = rng.choice([[], [], ["plat"], ["plat", "hpc"]])
+    gvars = {"numberPoints": str(rng.randint(1, 3)), "message": "package-default"}
+    for v in rng.sample(VAR_NAMES, rng.randint(0, 3)):
+        gvars[v] = gen_value(rng)
+    variables = {"default": {"GLOBAL": gvars}}
+    for s in range(min(nstages, 3)):
+        if rng.random() < 0.4:
+            variables["default"]["STAGE%d" % s] = {v: "s%d-%s" % (s, gen_value(rng))
+                                                   for v in rng.sample(sorted(gvars), rng.randint(1, 2))
+                                                   if v != "numberPoints"} or {"extra": "e"}
+    experiment = {"default": {"ENV-MYENV": {"GREETING": "hello", "DEFAULTS": "PATH"}}}
+    if rng.random() < 0.5:
+        experiment["default"]["ENV-SECOND"] = {k: rng.choice(["1", "4", "$FOO/bin", "lit"])
+                                               for k in rng.sample(ENV_VARS, rng.randint(1, 3))}
+    for p in platforms:
+        variables[p] = {"GLOBAL": {v: "p-%s" % gen_value(rng) for v in rng.sample(sorted(gvars), rng.randint(1, 2))
+                                   if v != "numberPoints"} or {"message": "from-" + p}}
+        if rng.random() < 0.4:
+            variables[p]["GLOBAL"]["numberPoints"] = str(rng.randint(1, 3))
+        experiment[p] = {"ENV-MYENV": {"GREETING": "hello from " + p}}
+    stages = []
+    producers = []
+    for s in range(nstages):
+        comps = {}
+        names = rng.sample(DOSINI_COMPS, rng.randint(1, 3) if nstages <= 3 else 1)
+        for name in names:
+            args = ["%(message)s"] + ["-%s %%(%s)s" % (v[0], v) for v in rng.sample(sorted(gvars), rng.randint(0, 2))]
+            opts = {"executable": rng.choice(["echo", "cat", "ls"])}
+            refs = []
+            rep = s == 0 and not any(p[2] for p in producers) and rng.random() < 0.7
+            if not rep:
+                for (ps, pn, prep) in rng.sample(producers, rng.randint(0, min(2, len(producers)))):
+                    if prep or any(r.split(":")[0].split(".")[-1] == pn for r in refs):
+                        continue
+                    refs.append("stage%d.%s:ref" % (ps, pn))
+            if rep:
+                opts["replicate"] = "%(numberPoints)s"
+                args.append("%(replica)s")
+            args.extend(refs)
+            opts["arguments"] = " ".join(args)
+            if refs:
+                opts["references"] = " ".join(refs)
+            if rng.random() < 0.5:
+                opts["environment"] = rng.choice(["myenv", "MYENV", "second" if "ENV-SECOND" in experiment["default"]
+                                                  else "myenv"])
+            comps[name] = opts
+            producers.append((s, name, rep))
+        stages.append(comps)
+    reps = [p for p in producers if p[2]]
+    if reps:
+        stages[-1]["Collect"] = {"executable": "echo", "arguments": "stage0.%s:ref" % reps[0][1],
+                                 "references": "stage0.%s:ref" % reps[0][1], "aggregate": "True"}
+    doc = {"experiment": experiment, "variables": variables, "stages": stages}
+    # user variable files: the pool serves the earlier launches and the loads that are dumped
+    vfiles = []
+    for i in range(rng.choice([1, 2, 2, 3])):
+        g = {"message": "u%d-launch-override" % i}
+        if rng.random() < 0.7:
+            g["numberPoints"] = str(rng.randint(4, 5))
+        for v in rng.sample(sorted(gvars), rng.randint(0, 2)):
+            if v not in ("numberPoints", "message"):
+                g[v] = "u%d-%s" % (i, gen_value(rng))
+        d = {"global": g}
+        if rng.random() < 0.3:
+            d["stages"] = {"#0": {"message": "u%d-s0" % i}}
+        # user variable files come in two spellings: YAML and DOSINI ([GLOBAL] / [STAGE<N>] sections)
+        vfiles.append({"name": "%s%d.%s" % (rng.choice(["vars", "ovr", "a", "zz", "site"]), i,
+                                            rng.choice(["yaml", "conf"])), "doc": d})
+    names = [v["name"] for v in vfiles]
+    history = []
+    for _ in range(rng.choice([0, 1, 1, 1, 2])):
+        history.append({"variable_files": rng.sample(names, rng.randint(0 if len(history) else 1, len(names))),
+                        "platform": rng.choice([None] + platforms)})
+    order = rng.sample(names, rng.randint(0, len(names))) if rng.random() < 0.6 else []
+    return {"id": jid, "kind": "dosini", "doc": doc, "files": {"data/in.txt": "x\n"} if rng.random() < 0.3 else {},
+            "variable_files": vfiles, "variable_order": order, "history": history,
+            "platform": rng.choice([None] + platforms), "nstages": nstages}
+
+
+# the directory was launched once with numberPoints=5: conf/stages.d holds stage0.conf AND stage0.instance.conf
+MINIMAL_DOSINI = {"id": "minimal-dosini", "kind": "dosini", "files": {}, "platform": None, "nstages": 1,
+                  "doc": {"experiment": {"default": {"ENV-MYENV": {"GREETING": "hello"}}},
+                          "variables": {"default": {"GLOBAL": {"numberPoints": "3", "message": "package-default"}}},
+                          "stages": [{"Generate": {"executable": "echo", "arguments": "%(message)s %(replica)s",
+                                                   "environment": "myenv", "replicate": "%(numberPoints)s"},
+                                      "Collect": {"executable": "echo", "arguments": "Generate:ref",
+                                                  "references": "Generate:ref", "aggregate": "True"}}]},
+                  "variable_files": [{"name": "launch.yaml",
+                                      "doc": {"global": {"numberPoints": "5", "message": "launch-override"}}}],
+                  "variable_order": [], "history": [{"variable_files": ["launch.yaml"], "platform": None}]}
+
+
+def listing_mode(idx):
+    """the order in which child number idx sees the entries of every directory"""
+    return [None, "ascending", "descending"][idx] if idx < 3 else "shuffle:%d" % idx
+
+
+JOB_KEYS = ("id", "kind", "doc", "files", "variable_files", "variable_order", "platform", "nstages", "history")
+
+
+def case_of(job):
+    return {k: job[k] for k in JOB_KEYS if k in job}
+
 
 def unjson_keys(obj):
     """JSON turns integer keys into strings: the generator marks them as '#<int>' (as harness/c15_child.py)"""
@@ -313,8 +442,7 @@ def check_visit_orders(ctx, jobs, norders, record=True):
                     outs.append(sorted(json.dumps(c, sort_keys=True, default=str) for c in r))
                 except Exception as exc:  # noqa
                     outs.append(["error:" + type(exc).__name__])
-            case = {k: job[k] for k in ("id", "kind", "doc", "files", "variable_files", "variable_order", "platform",
-                                        "nstages")}
+            case = case_of(job)
             case["visit_orders"] = [[comps[i]["name"] for i in o] for o in orders]
             if record:
                 ctx.tag("explicit-visit-orders")
@@ -677,6 +805,210 @@ def check_dsl_inprocess(ctx, docs, nperm, record=True, extra_seeds=()):
             ctx.fail(*f)
     return failures
 
+# ----------------------------------------------------------------------------------------
+# DOSINI in this process: explicit directory listing orders; model of the stage discovery
+# ----------------------------------------------------------------------------------------
+
+class ListingOrder(object):
+    """every directory listing of this process (os.listdir / os.scandir, hence glob and os.walk) in a chosen order:
+    "native", "ascending", "descending", "shuffle:<seed>"; `seen` records what was returned per directory"""
+
+    def __init__(self, mode):
+        self.mode = mode
+        self.seen = {}
+
+    def reorder(self, names):
+        names = sorted(names)
+        if self.mode == "descending":
+            names = names[::-1]
+        elif self.mode.startswith("shuffle:"):
+            random.Random("%s|%s" % (self.mode, "|".join(names))).shuffle(names)
+        return names
+
+    def __enter__(self):
+        self.listdir, self.scandir = os.listdir, os.scandir
+        if self.mode == "native":
+            return self
+        outer = self
+
+        def listdir(path="."):
+            out = outer.reorder(outer.listdir(path))
+            outer.seen[str(path)] = list(out)
+            return out
+
+        class Scan(object):
+            def __init__(self, path="."):
+                with outer.scandir(path) as it:
+                    by_name = {e.name: e for e in it}
+                order = outer.reorder(list(by_name))
+                outer.seen[str(path)] = list(order)
+                self._it = iter([by_name[n] for n in order])
+
+            def __iter__(self):
+                return self
+
+            def __next__(self):
+                return next(self._it)
+
+            def close(self):
+                self._it = iter(())
+
+            def __enter__(self):
+                return self
+
+            def __exit__(self, *exc):
+                self.close()
+                return False
+
+        os.listdir, os.scandir = listdir, Scan
+        return self
+
+    def __exit__(self, *exc):
+        os.listdir, os.scandir = self.listdir, self.scandir
+        return False
+
+
+def ini_text(sections):
+    lines = []
+    for sec, opts in sections.items():
+        lines.append("[%s]" % sec)
+        for k, v in (opts or {}).items():
+            lines.append("%s=%s" % (k, v))
+        lines.append("")
+    return "\n".join(lines) + "\n"
+
+
+def gen_dosini_dir(rng):
+    """the files of a conf/ directory: the package flavour of a generated DOSINI package, for a random number of its
+    stages also an instance flavour whose [DEFAULT] section carries other values (what a launch with user variables
+    stores), and files that no loader pattern matches"""
+    job = gen_dosini_package(rng, "x")
+    doc = job["doc"]
+    files = {}
+    for plat, sections in doc["experiment"].items():
+        files["experiment.conf" if plat == "default" else "experiment.%s.conf" % plat] = ini_text(sections)
+    for plat, sections in doc["variables"].items():
+        files["variables.conf" if plat == "default" else "variables.d/%s.conf" % plat] = ini_text(sections)
+    n = len(doc["stages"])
+    for i, comps in enumerate(doc["stages"]):
+        files["stages.d/stage%d.conf" % i] = ini_text(comps)
+    launched = rng.random() < 0.8
+    if launched:
+        # the instance flavour covers all the stages, or (a launch of an older version of the package) fewer / more
+        ni = rng.choice([n, n, n, max(1, n - 1), n + 1])
+        baked = {"numberPoints": str(rng.randint(4, 6)), "message": "launch-override"}
+        files["experiment.instance.conf"] = ini_text(doc["experiment"]["default"])
+        for i in range(ni):
+            comps = doc["stages"][i] if i < n else {"Late": {"executable": "echo", "arguments": "%(message)s"}}
+            sections = {"DEFAULT": dict(doc["variables"]["default"]["GLOBAL"], **baked)}
+            sections.update(comps)
+            files["stages.d/stage%d.instance.conf" % i] = ini_text(sections)
+    for noise in rng.sample(["stages.d/README", "stages.d/stage0.conf.orig", "stages.d/stage0.conf~", "stages.d/notes.txt",
+                             "variables.d/README", "stages.d/.stage0.conf.swp"], rng.randint(0, 2)):
+        files[noise] = "not a configuration file\n"
+    return {"files": files, "launched": launched}
+
+
+MINIMAL_DOSINI_DIR = {"launched": True, "files": {
+    "experiment.conf": "[ENV-MYENV]\nGREETING=hello\n",
+    "variables.conf": "[GLOBAL]\nnumberPoints=3\nmessage=package-default\n",
+    "stages.d/stage0.conf": "[Generate]\nexecutable=echo\narguments=%(message)s %(replica)s\n"
+                            "replicate=%(numberPoints)s\n",
+    "experiment.instance.conf": "[ENV-MYENV]\nGREETING=hello\n",
+    "stages.d/stage0.instance.conf": "[DEFAULT]\nnumberPoints=5\nmessage=launch-override\n\n[Generate]\n"
+                                     "executable=echo\narguments=%(message)s %(replica)s\n"
+                                     "replicate=%(numberPoints)s\n"}}
+
+
+def stage_entries(names):
+    """what the stage discovery reads from the names of a listing of conf/stages.d: [index, instance flavour?, name]
+    for the names that match stage*.conf"""
+    import fnmatch
+    out = []
+    for nm in names:
+        if not fnmatch.fnmatchcase(nm, "stage*.conf"):
+            continue
+        digits = nm.split(".")[0][5:]
+        if not digits.isdigit():
+            return None
+        out.append([int(digits), nm.endswith(".instance.conf"), nm])
+    return out
+
+
+def check_dosini_listing(ctx, docs, norders, record=True):
+    """Dosini.load_from_directory on the same conf/ directory while the process sees every directory listed in
+    explicit orders.  Oracle: the same FlowIR (or the same kind of error) for every order, for the package flavour
+    and for the instance flavour.  Model: St4sd.C15Stages.discover predicts, from the names in the order listed, the
+    file that Dosini._discover_stages picks for every stage."""
+    import logging
+    import experiment.model.frontends.dosini as DI
+    failures, reqs, slots = [], [], []
+    prev = logging.root.manager.disable
+    logging.disable(logging.CRITICAL)
+    scratch = tempfile.mkdtemp(prefix="c15-listing-")
+    try:
+        for di, doc in enumerate(docs):
+            conf = os.path.join(scratch, "d%d" % di, "conf")
+            for rel, text in doc["files"].items():
+                path = os.path.join(conf, rel)
+                os.makedirs(os.path.dirname(path), exist_ok=True)
+                with open(path, "w") as fh:
+                    fh.write(text)
+            os.makedirs(os.path.join(conf, "stages.d"), exist_ok=True)
+            modes = ["ascending", "descending", "native"] + ["shuffle:%d" % ctx.rng.randrange(1 << 30)
+                                                              for _ in range(norders)]
+            case = {"kind": "dosini-listing", "doc": doc, "listing_orders": modes}
+            both = sum(1 for f in doc["files"] if f.endswith(".instance.conf") and f.startswith("stages.d/"))
+            if record:
+                ctx.case(case, nontrivial=both > 0,
+                         tags=["dosini-listing", "dosini-listing:both-flavours" if both else "dosini-listing:package-only"])
+            for is_instance in (False, True):
+                outs = []
+                for mode in modes:
+                    with ListingOrder(mode) as lo:
+                        try:
+                            errs = []
+                            flowir = DI.Dosini.load_from_directory(conf, [], {}, is_instance, out_errors=errs)
+                            out = {"flowir": json.loads(json.dumps(flowir, sort_keys=True, default=str)
+                                                        .replace(scratch, "$I")),
+                                   "n_errors": len(errs)}
+                        except Exception as exc:  # noqa
+                            out = {"error": type(exc).__name__}
+                        picked = None
+                        try:
+                            fn = getattr(DI.Dosini, "_discover_stages", None)
+                            if fn is not None:
+                                picked = {str(k): os.path.basename(v) for k, v in fn(conf, is_instance).items()}
+                        except Exception:  # noqa
+                            picked = None
+                    outs.append(out)
+                    listed = lo.seen.get(os.path.join(conf, "stages.d"))
+                    if mode != "native" and record and picked is not None and listed is not None:
+                        entries = stage_entries(listed)
+                        if entries is not None:
+                            upto = max([e[0] for e in entries] + [0]) + 1
+                            reqs.append({"op": "stages", "listing": entries, "is_instance": is_instance, "upto": upto})
+                            slots.append((dict(case, listing=mode, is_instance=is_instance, listed=listed), picked, upto))
+                for mode, out in zip(modes[1:], outs[1:]):
+                    if out != outs[0]:
+                        failures.append(("dosini-load-depends-on-directory-listing-order", case,
+                                         {"is_instance": is_instance, "listing_a": modes[0], "listing_b": mode,
+                                          "differences": diff_paths(outs[0], out)}))
+                        break
+    finally:
+        logging.disable(prev)
+        shutil.rmtree(scratch, ignore_errors=True)
+    mouts = ctx.model(reqs) if (reqs and ctx.driver is not None) else None
+    if mouts is not None:
+        for (case, picked, upto), m in zip(slots, mouts):
+            ctx.compare("Dosini._discover_stages == C15Stages.discover (listing in the order given)", case,
+                        {"stages": {str(i): m["stages"][i] for i in range(upto) if m["stages"][i] is not None}},
+                        {"stages": picked})
+    if record:
+        for f in failures:
+            ctx.fail(*f)
+    return failures
+
 
 MINIMAL = {"id": "minimal", "kind": "flowir",
            "doc": {"variables": {"default": {"global": {"v": "pkg"}}},
@@ -738,7 +1070,7 @@ def run_children(jobs, hashseeds, rng, scratch, seeds=None):
         with open(jp, "w") as fh:
             # every other child runs with all loggers enabled at DEBUG level (an ambient setting; see c15_child.py)
             json.dump({"tag": "h%d" % idx, "scratch": scratch, "jobs": js,
-                       "logging": "debug" if idx % 2 == 1 else None}, fh)
+                       "logging": "debug" if idx % 2 == 1 else None, "listing": listing_mode(idx)}, fh)
         p = subprocess.Popen(["/venv/bin/python", CHILD, jp, op], env=child_env(hs), stdout=subprocess.PIPE,
                              stderr=subprocess.PIPE, cwd=scratch)
         procs.append((hs, p, op))
@@ -845,7 +1177,7 @@ def shadowed_by_sibling(job):
 
 def component_level_names(job):
     out = {}
-    for c in job["doc"].get("components", []):
+    for c in job["doc"].get("components", []) if job.get("kind") != "dosini" else []:
         out[(c.get("stage", 0), c["name"])] = set((c.get("variables") or {}).keys())
     return out
 
@@ -887,9 +1219,9 @@ def check_jobs(ctx, jobs, hashseeds, scratch, record=True):
     mouts = ctx.model(reqs) if ctx.driver is not None else None
     for ji, job in enumerate(jobs):
         dumps = {hs: strip_private(res[hs][job["id"]]) for hs in hashseeds}
-        case = {k: job[k] for k in ("id", "kind", "doc", "files", "variable_files", "variable_order", "platform",
-                                    "nstages")}
+        case = case_of(job)
         case["hashseeds"] = list(hashseeds)
+        case["listing_orders"] = [listing_mode(i) or "native" for i in range(len(hashseeds))]
         if job.get("again"):
             case["again"] = True
         first = dumps[hashseeds[0]]
@@ -901,7 +1233,9 @@ def check_jobs(ctx, jobs, hashseeds, scratch, record=True):
                            "variable-files:%d" % nvf, "platform:%s" % job["platform"],
                            "dup-variable-file" if len(job["variable_order"]) != nvf else "no-dup"] +
                           (["replicated"] if any("replicate" in (c.get("workflowAttributes") or {})
-                                                  for c in job["doc"]["components"]) else []) +
+                                                  for c in job["doc"].get("components", [])) else []) +
+                          (["dosini:both-flavours-on-disk" if job.get("history") else "dosini:package-flavour-only",
+                            "dosini:stages:%d" % job["nstages"]] if job.get("kind") == "dosini" else []) +
                           (["replicate-variable-shadowed-by-sibling"] if shadowed_by_sibling(job) else []) +
                           (["loaded-twice-in-one-process"] if job.get("again") else []) +
                           ["package:" + job.get("kind", "flowir")])
@@ -916,6 +1250,8 @@ def check_jobs(ctx, jobs, hashseeds, scratch, record=True):
                 ps = [x["path"] for x in d]
                 if job.get("kind") == "dsl" and not any("user_variables" in x for x in ps):
                     slug = "dsl-package-load-differs-across-processes"
+                elif job.get("kind") == "dosini":
+                    slug = "dosini-package-load-differs-across-processes-or-listing-orders"
                 elif any(("/conf_init" in x or "/conf_parametrize" in x or "user_variables" in x) for x in ps):
                     slug = "variable-layering-differs-across-processes"
                 elif ps and all("/environment" in x for x in ps):
@@ -944,7 +1280,8 @@ def check_jobs(ctx, jobs, hashseeds, scratch, record=True):
                                          "the same hash seeds and permutations: %s" % (job["id"], slug, json.dumps(d)[:600]))
                         break
                 failures.append((slug, case,
-                                 {"hashseed_a": hashseeds[0], "hashseed_b": hs, "differences": d}))
+                                 {"hashseed_a": hashseeds[0], "hashseed_b": hs, "differences": d,
+                                  "listing_a": "native", "listing_b": listing_mode(hashseeds.index(hs)) or "native"}))
                 break
         # (1b) a package loaded a second time in the same process (after all the other packages) loads the same
         if job.get("again"):
@@ -989,7 +1326,7 @@ def check_jobs(ctx, jobs, hashseeds, scratch, record=True):
                         continue
                     ctx.compare("layer_many_variable_files(order given) == Layer.loadVars [%s]" % where, case,
                                 {"vars": mvars}, {"vars": flat_vars(w["user_variables"])})
-                    if job.get("kind") == "dsl":
+                    if job.get("kind") in ("dsl", "dosini"):
                         # user variables of a DSL 2.0 package override the arguments of the entry instance; there
                         # is no per-stage injection to compare
                         continue
@@ -1119,6 +1456,12 @@ def make_shrinker(ctx, scratch_root):
                 if hit:
                     return hit[0][1]
             return case
+        if case.get("kind") == "dosini-listing":
+            hit = [f for f in check_dosini_listing(ctx, [copy.deepcopy(MINIMAL_DOSINI_DIR)], norders=8, record=False)
+                   if f[0] == what]
+            return hit[0][1] if hit else case
+        if case.get("kind") == "dosini":
+            tries.append(copy.deepcopy(MINIMAL_DOSINI))
         if case.get("kind") == "dsl":
             tries.append(copy.deepcopy(MINIMAL_DSL))
         if shadowed_by_sibling(case):
@@ -1164,10 +1507,17 @@ def run(ctx):
                 "that nested workflows repeat them, output references between steps, 0-3 user variable files) loaded "
                 "in the same child processes; plus DSL 2.0 namespaces converted in this process from the document and "
                 "from %d copies with permuted mappings, non-trivial = converts and (a duplicate step name was "
-                "renamed or >= 2 instances share an environment of >= 2 variables)" % (4 if quick else 16,
-                                                                                      4 if quick else 8))
-    ctx.assumptions = ["the order in which a directory lists its entries is varied only through the creation order "
-                       "of the files (same file system for all children)",
+                "renamed or >= 2 instances share an environment of >= 2 variables); plus generated DOSINI packages "
+                "(1-3 or 11 stages, 0-2 extra platforms, replicate through %%(numberPoints)s + aggregate, 1-3 user "
+                "variable files in YAML or DOSINI spelling, a history of 0-2 earlier launches that stored the instance "
+                "flavour in the directory) loaded in the same child processes, which see every directory listed in "
+                "native / ascending / descending / shuffled order; plus generated DOSINI conf/ directories loaded in this "
+                "process with Dosini.load_from_directory (package and instance flavour) under explicit listing orders, "
+                "non-trivial = conf/stages.d holds both flavours of some stage" % (4 if quick else 16,
+                                                                                   4 if quick else 8))
+    ctx.assumptions = ["the order in which a directory lists its entries is varied through the creation order of the "
+                       "files and by reordering what os.listdir / os.scandir return (ascending, descending, shuffled); "
+                       "code that lists directories through another system interface is not reached by that",
                        "launch environment of all children is identical (set by the harness)"]
     ctx.trusted.append("C15: hash-seed independence is established by comparison of canonical dumps across child "
                        "processes (harness/c15_child.py), not by a theorem; PyYAML load/dump of the generated documents")
@@ -1180,8 +1530,10 @@ def run(ctx):
     njobs = 40 if quick else 160
     ndsl = 20 if quick else 80
     nshadow = 12 if quick else 48
+    ndosini = 14 if quick else 56
     jobs = [copy.deepcopy(MINIMAL), copy.deepcopy(MINIMAL_DUP), copy.deepcopy(MINIMAL_ENVCASE),
-            copy.deepcopy(MINIMAL_DSL), copy.deepcopy(MINIMAL_SHADOW)] + \
+            copy.deepcopy(MINIMAL_DSL), copy.deepcopy(MINIMAL_SHADOW), copy.deepcopy(MINIMAL_DOSINI)] + \
+           [gen_dosini_package(ctx.rng, "i%d" % i) for i in range(ndosini)] + \
            [gen_package(ctx.rng, "j%d" % i) for i in range(njobs)] + \
            [gen_shadow_package(ctx.rng, "s%d" % i) for i in range(nshadow)] + \
            [gen_dsl_package(ctx.rng, "d%d" % i) for i in range(ndsl)]
@@ -1206,6 +1558,9 @@ def run(ctx):
         check_visit_orders(ctx, jobs, norders=4 if quick else 10)
         check_dsl_inprocess(ctx, [MINIMAL_DSL["doc"]] + [gen_dsl_doc(ctx.rng) for _ in range(200 if quick else 1500)],
                             nperm=4 if quick else 8)
+        check_dosini_listing(ctx, [copy.deepcopy(MINIMAL_DOSINI_DIR)] +
+                             [gen_dosini_dir(ctx.rng) for _ in range(40 if quick else 300)],
+                             norders=3 if quick else 8)
         check_serialize(ctx, 600 if quick else 6000)
         ctx.extra["hashseeds"] = hashseeds
         # the shrinker (if any failure) runs inside finish(): keep scratch until then
@@ -1249,7 +1604,10 @@ def replay(ctx, doc):
         check_dsl_inprocess(ctx, [case["doc"]], nperm=32, extra_seeds=case.get("perm_seeds", []))
         return
     scratch = tempfile.mkdtemp(prefix="c15-")
-    job = {k: v for k, v in case.items() if k not in ("hashseeds", "visit_orders")}
+    if case.get("kind") == "dosini-listing":
+        check_dosini_listing(ctx, [case["doc"]], norders=24)
+        return
+    job = {k: v for k, v in case.items() if k not in ("hashseeds", "visit_orders", "listing_orders")}
     seeds = list(dict.fromkeys(list(case.get("hashseeds", [])) + list(range(16))))
     check_visit_orders(ctx, [job], norders=24)
     check_jobs(ctx, [job], seeds, scratch)
